@@ -29,6 +29,21 @@ var (
 
 func hGetValueAtPath(path string, vcAsInterface interface{}) (interface{}, error) {
 	hLookupCalls++
+	// a result registered for this credential ("<credential tag>|<path>", see H12g) takes precedence over the
+	// credential-independent one
+	if m, isMap := vcAsInterface.(map[string]interface{}); isMap {
+		if tag, has := m["hTag"].(string); has {
+			if l, ok := hLookups[tag+"|"+path]; ok {
+				if l.kind == 0 {
+					return nil, nil
+				}
+				if l.kind == 1 {
+					return nil, errors.New("harness: invalid JSON path")
+				}
+				return l.value, nil
+			}
+		}
+	}
 	l, ok := hLookups[path]
 	if !ok || l.kind == 0 {
 		return nil, nil
@@ -42,6 +57,9 @@ func hGetValueAtPath(path string, vcAsInterface interface{}) (interface{}, error
 func hRemarshalToMap(v interface{}) (map[string]interface{}, error) {
 	if hRemarshalErr {
 		return nil, errors.New("harness: cannot marshal credential")
+	}
+	if c, isVC := v.(vc.VerifiableCredential); isVC {
+		return map[string]interface{}{"hTag": hTag(c)}, nil
 	}
 	return map[string]interface{}{}, nil
 }
